@@ -334,6 +334,9 @@ fintPrintType(FILE * fout, AbSyn ab)
                         for (ai = 0; ai < abArgc(abComma); ai++)
                         {
                                 abId = abArgv(abComma)[ai];
+                                /* (a component may carry its type: `(a: T, b: T) == ...') */
+                                if (abTag(abId) == AB_Declare)
+                                        abId = abId->abDeclare.id;
                                 (void)fprintf(fout, "%s%s",
                                         (ai == 0) ? "" : ", ",
                                         symString(abLeafSym(abId))
